@@ -186,17 +186,21 @@ structure Plan where
   order : List Nat        -- source axes in result order
   deriving Repr
 
-def zeroStep : Item → Bool
-  | .slice _ _ (some 0) => true
-  | _ => false
+/-- integers and slices only (lists are bounds-checked by NumPy in a second phase) -/
+def selOfBasic (n : Nat) : Item → Except Err Sel
+  | .list _ => .ok (.lst [])
+  | it => selOf n it
 
 def plan (shape : List Nat) (ix : List Item) : Except Err Plan :=
   match expandItems shape.length ix with
   | .error e => .error e
   | .ok its =>
-    -- with a list present NumPy first takes the basic (slice) view — "slice step cannot be
-    -- zero" — and only then bounds-checks integers and list entries; otherwise left to right
-    if its.any Item.isList && its.any zeroStep then .error .value else
+    -- NumPy first walks integers and slices left to right (IndexError for an integer out of
+    -- bounds, ValueError for a zero slice step, whichever comes first) and only then
+    -- bounds-checks / broadcasts the list entries
+    match mapMExcept (fun (p : Nat × Item) => selOfBasic p.1 p.2) (shape.zip its) with
+    | .error e => .error e
+    | .ok _ =>
     match mapMExcept (fun (p : Nat × Item) => selOf p.1 p.2) (shape.zip its) with
     | .error e => .error e
     | .ok sels =>
